@@ -228,7 +228,7 @@ func (P) Generate(g *core.Gen) {
 		}
 	}
 	// 2. random scripts, every configuration.
-	for i, n := 0, g.N(2000, 30000); i < n; i++ {
+	for i, n := 0, g.N(2500, 80000); i < n; i++ {
 		in := r.Bool()
 		ours := oursEdges[r.Intn(len(oursEdges))]
 		theirs := pverEdges[r.Intn(len(pverEdges))]
@@ -277,13 +277,13 @@ func (P) Generate(g *core.Gen) {
 			for _, n := range []int{0, 1, 2, 7, 49, 50} {
 				g.Case("prestart-"+mode, n > 0, fmt.Sprintf("C18 prestart %s %d %s", dir, n, mode))
 			}
-			for i, k := 0, g.N(6, 60); i < k; i++ {
+			for i, k := 0, g.N(6, 200); i < k; i++ {
 				g.Case("prestart-"+mode, true, fmt.Sprintf("C18 prestart %s %d %s", dir, 1+r.Intn(50), mode))
 			}
 		}
 	}
 	// 4. pipeline scenarios: run on the real peer now; the observed trace goes on the line.
-	for i, n := 0, g.N(220, 3000); i < n; i++ {
+	for i, n := 0, g.N(400, 12000); i < n; i++ {
 		c := pipeCfg{nProd: 1 + r.Intn(8), nMsg: 1 + r.Intn(12), seed: r.U64(), invCallers: r.Intn(3)}
 		switch x := r.Intn(20); {
 		case x < 9:
